@@ -1697,7 +1697,8 @@ class InTablePhase(Phase):
 
     # processing methods
     def processEOF(self):
-        if self.tree.openElements[-1].name != "html":
+        if (self.tree.openElements[-1].name != "html" or
+                self.tree.openElements[-1].namespace != self.tree.defaultNamespace):
             self.parser.parseError("eof-in-table")
         else:
             assert self.parser.innerHTML
